@@ -123,14 +123,14 @@ func init() {
 	engine.Register(&engine.Prop{
 		ID: "C17",
 		Shards: func(th bool) []string {
-			s := []string{"content", "blocks"}
+			s := []string{"content", "blocks", "absolute"}
 			for i := range c17Bodies {
 				s = append(s, fmt.Sprintf("partial:%d", i))
 			}
 			return s
 		},
 		Run:  c17Run,
-		Rule: "(partial) 11 bodies (text, output tags of outer/data names, loop, conditional, let inside, counting marker, quotes/backslash, nested partial, nested partial with layout) x 7 data maps (none, empty, shadowing an outer name, fresh name, both, shadowing with nil, nil + fresh) x layout {none, layout, layout whose template itself uses a partial with a layout, .js layout} x content type {unset, text/html, application/javascript} x partial name extension {.html, .js, none} x position (top level, inside for, inside if, inside a helper block, inside a user function): output equals the composition at string level of the same sources rendered by plush itself as standalone templates in the equivalent scope (JS case: JSEscapeString of it), a counting marker shows every insertion happened exactly once. (content) every sequence of <=4 items from {contentFor(c1){…}, contentFor(c2){…}, contentOf(c1|c2|undefined) with/without data and with/without default block}: contentFor emits nothing where defined, each contentOf emits the stored block rendered with its data in a child of the definition scope (or its default block, or the render fails when undefined), later definitions win. (blocks) block helpers using Block() / BlockWith(child) / calling Block() twice over the same bodies and placements: the string the helper received equals the inline rendering. Non-trivial: all cases with a non-text body or data.",
+		Rule: "(partial) 11 bodies (text, output tags of outer/data names, loop, conditional, let inside, counting marker, quotes/backslash, nested partial, nested partial with layout) x 7 data maps (none, empty, shadowing an outer name, fresh name, both, shadowing with nil, nil + fresh) x layout {none, layout, layout whose template itself uses a partial with a layout, .js layout} x content type {unset, text/html, application/javascript} x partial name extension {.html, .js, none} x position (top level, inside for, inside if, inside a helper block, inside a user function): output equals the composition at string level of the same sources rendered by plush itself as standalone templates in the equivalent scope (JS case: JSEscapeString of it), a counting marker shows every insertion happened exactly once. (content) every sequence of <=4 items from {contentFor(c1){…}, contentFor(c2){…}, contentOf(c1|c2|undefined) with/without data and with/without default block}: contentFor emits nothing where defined, each contentOf emits the stored block rendered with its data in a child of the definition scope (or its default block, or the render fails when undefined), later definitions win. (absolute) 8 nested compositions with literal expectations: outer variables, variables and data named like built-in helpers, data overriding and sibling isolation through partials nested three deep, layout of a nested partial, contentFor inside a partial, block helper inside a partial inside a loop. (blocks) block helpers using Block() / BlockWith(child) / calling Block() twice over the same bodies and placements: the string the helper received equals the inline rendering. Non-trivial: all cases with a non-text body or data.",
 		Bound: func(th bool) string {
 			if th {
 				return "all listed combinations; content programs of <=5 items"
@@ -227,6 +227,8 @@ func c17Run(t *engine.T, shard string) {
 		}
 	case "content":
 		c17Content(t)
+	case "absolute":
+		c17Absolute(t)
 	case "blocks":
 		for _, body := range c17Bodies {
 			for _, h := range []string{"recblk", "recwith", "twice"} {
@@ -291,6 +293,48 @@ func c17Run(t *engine.T, shard string) {
 				}
 			}
 		}
+	}
+}
+
+// c17Absolute: compositions with literal expectations (a differential oracle cannot see a defect
+// that affects the inline rendering and the composed rendering alike, e.g. in nested scopes).
+func c17Absolute(t *engine.T) {
+	cases := []struct{ name, src, want string }{
+		{"outer variables reach partials nested three deep", `<%= partial("n1.html") %>`, "a:O&amp;&lt;,b:O&amp;&lt;,c:O&amp;&lt;"},
+		{"a variable named like a built-in helper reaches partials nested three deep", `<%= partial("h1.html") %>`, "a:staging,b:staging,c:staging"},
+		{"data named like a built-in helper is passed down", `<%= partial("l1.html", {"len": 3}) %>`, "a:3,b:3,c:[3]"},
+		{"data overrides only below", `<%= partial("n1.html", {"v": "D"}) %>|<%= v %>`, "a:D,b:D,c:D|O&amp;&lt;"},
+		{"inner data does not leak to siblings", `<%= partial("s1.html") %>`, "x:1,y:none"},
+		{"layout of a nested partial sees the nested data", `<%= partial("inner.html", {"w": "W", "v": "V", "layout": "lay1.html"}) %>`, `<l1 v="V">{w=W;v=V}</l1>`},
+		{"contentFor inside a partial is usable there", `<%= partial("cf.html") %>`, "[in]"},
+		{"block helper inside a partial inside a loop", `<%= for (e) in xs { %><%= partial("bh.html") %><% } %>`, "{a}{b}"},
+	}
+	for _, c := range cases {
+		c := c
+		t.Case("absolute "+c.name+" "+q(c.src), true, func() (string, *engine.Fail) {
+			e := c17NewEnv("")
+			e.texts["n1.html"] = `a:<%= v %>,<%= partial("n2.html") %>`
+			e.texts["n2.html"] = `b:<%= v %>,<%= partial("n3.html") %>`
+			e.texts["n3.html"] = `c:<%= v %>`
+			e.texts["h1.html"] = `a:<%= env %>,<%= partial("h2.html") %>`
+			e.texts["h2.html"] = `b:<%= env %>,<%= partial("h3.html") %>`
+			e.texts["h3.html"] = `c:<%= env %>`
+			e.texts["l1.html"] = `a:<%= len %>,<%= partial("l2.html") %>`
+			e.texts["l2.html"] = `b:<%= len %>,<%= partial("l3.html") %>`
+			e.texts["l3.html"] = `c:[<%= len %>]`
+			e.texts["s1.html"] = `<%= partial("s2.html", {"x": 1}) %>,<%= partial("s3.html") %>`
+			e.texts["s2.html"] = `x:<%= x %>`
+			e.texts["s3.html"] = `y:<%= if (x) { %><%= x %><% } else { %>none<% } %>`
+			e.texts["cf.html"] = `<% contentFor("pc") { %>[in]<% } %><%= contentOf("pc") %>`
+			e.texts["bh.html"] = `<%= recblk() { %><%= e %><% } %>`
+			ctx := e.context()
+			ctx.Set("env", "staging") // a variable named like a built-in helper
+			out, err := Render(c.src, ctx)
+			if err != nil || out != c.want {
+				return "", engine.Failf("mismatch", "expected %q, got %q / %v", c.want, out, err)
+			}
+			return "equal-expected", nil
+		})
 	}
 }
 
